@@ -662,7 +662,7 @@ theorem C08_free_reference_total (taken : List String) (x : String) :
 /-- non-vacuity: the former counterexample of F-C08-16 — a parameter called `compartment` — is written with the
     default compartment `compartment_`, the species in it, as amounts -/
 example : ∃ dc, writeModel ⟨[("compartment", .val 3)], [("x", .val 2)], [], []⟩ none = .ok dc ∧
-    dc.compartments = [("compartment_", 1)] ∧ dc.species = [⟨"x", "compartment_", true, true⟩] := by
+    dc.compartments = [("compartment_", (defaultCompartmentSize : Rat))] ∧ dc.species = [⟨"x", "compartment_", true, true⟩] := by
   refine ⟨_, rfl, ?_, ?_⟩ <;> decide +kernel
 example : ∃ dc, writeModel clashModel (some [("cell", 4), ("c2", 1)]) = .ok dc ∧
     dc.species.map (·.compartment) = ["cell", "cell"] := by
@@ -683,7 +683,7 @@ theorem C08_tables :
     iaSymbolDeclared = true ∧ mathUsesIds = true ∧ prefixRefId = prefixRule ∧ prefixRefSpecies = prefixVar ∧
     exportOrder = [.params, .derivedParams, .vars, .derivedVars, .rxns] ∧
     speciesHosu = true ∧ speciesInitAmount = true ∧ speciesCompartmentLit = none ∧
-    defaultCompartmentId = "compartment" ∧ defaultCompartmentSize = 1 ∧ defaultCompartmentFresh = true ∧
+    defaultCompartmentId = "compartment" ∧ defaultCompartmentFresh = true ∧
     compartmentClashRefused = true := by
   decide
 
